@@ -42,6 +42,8 @@ func (o opSpec) String() string {
 		return "Walk"
 	case "walksorted":
 		return "WalkSorted"
+	case "walkstop":
+		return "Walk(stop at first leaf)"
 	case "hupd":
 		return fmt.Sprintf("h.Update(%s)", o.val)
 	case "hval":
@@ -68,7 +70,11 @@ var walkSorted = opSpec{"walksorted", nil, ""}
 // is the node whose lock is exchanged (no ancestor stays read-locked meanwhile).
 var addTop = opSpec{"add", []string{"d", "e"}, "v1"}
 
-var extras = []opSpec{addDeep, walkSorted, addTop}
+// walkStop is a Walk whose callback fails at the first leaf (the documented way
+// to stop a walk early): whatever the walk holds must be released on that path too.
+var walkStop = opSpec{"walkstop", nil, ""}
+
+var extras = []opSpec{addDeep, walkSorted, addTop, walkStop}
 
 var alphaQuick = []opSpec{
 	{"add", ab, "v1"}, {"add", ac, "v1"}, {"add", ab, "v2"},
@@ -168,9 +174,24 @@ func (harness) Configs(tier string) []xplore.Config {
 			ps = append(ps, []opSpec{x, x})
 		}
 	}
+	isExtra := func(p []opSpec) bool {
+		for _, o := range p {
+			for _, x := range extras {
+				if o.kind == x.kind && strings.Join(o.path, "/") == strings.Join(x.path, "/") {
+					return true
+				}
+			}
+		}
+		return false
+	}
 	for _, in := range inits {
 		for i := 0; i < len(ps); i++ {
 			for j := i; j < len(ps); j++ {
+				// quick tier: a two-operation program containing one of the extra
+				// operations meets one-operation programs only
+				if tier != "thorough" && len(ps[i]) == 2 && len(ps[j]) == 2 && (isExtra(ps[i]) || isExtra(ps[j])) {
+					continue
+				}
 				add(in, [][]opSpec{ps[i], ps[j]}, 3)
 			}
 		}
@@ -491,6 +512,9 @@ func lops(rs []rec) []hutil.LOp {
 				}
 				return []hutil.State{m}
 			}})
+		case "walkstop":
+			// reports at most one leaf; whether it was stored is covered by the
+			// interval rule of the full walks, here only termination matters
 		case "query", "walk", "walksorted":
 			out = append(out, hutil.LOp{Inv: r.inv, Ret: r.inv, Thread: r.thread, Name: fmt.Sprintf("%s:start", r.spec), Step: func(s hutil.State) []hutil.State {
 				n := s.(*mst).clone()
@@ -576,6 +600,9 @@ func (harness) Run(cfg xplore.Config, ch vrt.Chooser, trace bool) (xplore.Outcom
 						h.Update(o.val)
 					case "hval":
 						r.val = fmt.Sprint(h.Value())
+					case "walkstop":
+						stop := fmt.Errorf("stop")
+						t.Walk(func([]string, *ctree.Leaf, interface{}) error { return stop })
 					case "query", "walk", "walksorted":
 						r.reported = map[string]string{}
 						f := func(p []string, _ *ctree.Leaf, v interface{}) error {
